@@ -39,7 +39,7 @@ func forms(c cid.Cid) map[string][]byte {
 
 func CheckC18(run *evid.Run) {
 	nh := pick(run.Tier, 800, 12000)
-	run.Rule = "seeded histories written with a link key (0-16 predecessors, 0-7 references, payload classes of C07, 2 writer keys); for every appended entry with >=1 link the raw stored block is searched for each link in 8 encodings (binary CID, bare multihash, base32, base58btc, base58 of the multihash, hex, two base64 framings) and its decoded IPLD node must expose no Links(); three independent readers decode the block: same key (must recover identical next/refs in order, Verify must pass, the whole log must load from its heads and merge into a fresh replica), no key and a different key (must obtain no links; an error is fine). Non-trivial = entry with >=1 link; distinct = (#next, #refs, payload class, writer key)"
+	run.Rule = "seeded histories written with a link key (0-16 predecessors, 0-7 references, payload classes of C07, 2 writer keys, both built from one reused scratch buffer that is wiped afterwards); for every appended entry with >=1 link the raw stored block is searched for each link in 8 encodings (binary CID, bare multihash, base32, base58btc, base58 of the multihash, hex, two base64 framings) and its decoded IPLD node must expose no Links(); three independent readers decode the block: same key (must recover identical next/refs in order, Verify must pass, the whole log must load from its heads and merge into a fresh replica), no key and a different key (must obtain no links; an error is fine). Non-trivial = entry with >=1 link; distinct = (#next, #refs, payload class, writer key)"
 	parallel(nh, func(i int) {
 		rng := rand.New(rand.NewSource(run.Seed*6700417 + int64(i)))
 		var h *hx.History
